@@ -328,6 +328,12 @@ class Scenario:
             next_jd,
         )
         for event in relevant_events:
+            if event.scope_instance_id not in self.target_agents:
+                # [NOTE]: e.g. the agent was removed from the scenario while one of its maneuvers was still scheduled
+                self.logger.warning(
+                    f"Skipping {event.event_type} event of agent {event.scope_instance_id}: not a target of this scenario.",
+                )
+                continue
             event.handleEvent(self.target_agents[event.scope_instance_id])
             if event.planned:
                 event.handleEvent(self.estimate_agents[event.scope_instance_id])
